@@ -15,6 +15,11 @@
      BootstrapOtpAuthHandler                    Bootstrap
      ShowAuthTokenHandler / SendAuthDocument    ShowTok / SendDoc   (authToken.go)
      time passing                               Tick
+     Okta2FAuthHandler (2fa_okta.go)            OktaOtp
+     oktaPushStartHandler / oktaPollCheckHandler  OktaPushStart / OktaPoll   (on lib/authenticators/okta)
+     (the phone owner, via the Okta service)    OktaApprove
+     a request with a client certificate / while profile writes fail / while the primary database is
+     slow (profiles from the cache copy)        Req cert fault o / Cached o
 
    Every handler first runs checkAuth (app.go): of the auth_cookie values attached to the request
    the LAST one is verified and names the session (user, level); updateAuthCookieAuthlevel
@@ -40,6 +45,7 @@ Definition F_BOOT : N := 8.
 Definition F_CLI : N := 10.
 Definition F_FIDO2 : N := 11.
 Definition F_X509 : N := 9.
+Definition F_OKTA : N := 7.
 
 Definition has (l f : N) : bool := N.testbit l f.
 Definition add (l f : N) : N := N.lor l (2 ^ f).
@@ -83,7 +89,17 @@ Record st := {
   proved : list (N * N * Z);           (* ghost: (user, factor, time of the verification) *)
   spent : list onetime;                (* ghost *)
   now : Z;                             (* seconds *)
-  fresh : N
+  fresh : N;
+  minted : list N;                     (* ghost: the id of every one-time value ever handed out (challenge,
+                                          bootstrap OTP, push transaction), newest first *)
+  okta : N -> option Z;                (* the Okta authenticator: recentAuth[user].expires (the cached answer of the
+                                          last successful password check, with the user's state token) *)
+  opush : N -> N;                      (* the Okta service: push verification of the user's current state token —
+                                          0 not started, 1 waiting, 2 approved, 3 finished *)
+  acks : N;                            (* number of requests answered 200 without a cookie or a new value *)
+  saved_totp : N -> Z                  (* profile.LastSuccessfullTOTPCounter as PERSISTED; `last_totp` is the guard the
+                                          validator applies: the larger of the persisted counter and the one kept in
+                                          memory (totpLocalRateLimit[user].lastSuccessCounter) *)
 }.
 
 Definition upd {A} (m : N -> A) (u : N) (a : A) : N -> A := fun x => if N.eqb x u then a else m x.
@@ -100,14 +116,29 @@ Record config := {
   totp_monotone : bool;      (* validateUserTOTP refuses steps <= the last accepted one (repaired) *)
   chal_expiry : bool;        (* the finish handlers test the challenge's ExpiresAt (repaired) *)
   chal_delete_wa : bool;     (* u2fSignResponse deletes the challenge on the WebAuthn-key path (repaired) *)
-  upgrade_checks_owner : bool (* updateAuthCookieAuthlevel refuses a cookie of another user than the
+  upgrade_checks_owner : bool;(* updateAuthCookieAuthlevel refuses a cookie of another user than the
                                  authenticated one (repaired) *)
+  okta_on : bool;            (* state.passwordChecker is the Okta authenticator (password logins AND the Okta
+                                second factor go to the Okta authn API) *)
+  okta_life : Z;             (* lifetime of the cached primary response: expiresAt of the authn answer *)
+  from_cache : bool;         (* the primary database does not answer in time: LoadUserProfile serves the copy in the
+                                cache database and says so (fromCache) — set per request, see `Cached` *)
+  totp_mem_guard : bool      (* validateUserTOTP also remembers the last accepted step in memory, so that the replay
+                                guard holds while nothing can be persisted (repaired) *)
 }.
+
+(* the same code serving one request while the primary database is slow *)
+Definition with_cache (k : config) : config :=
+  {| devs := devs k; webui := webui k; cookie_life := cookie_life k; sel_last := sel_last k; upg_last := upg_last k;
+     vip_life := vip_life k; vip_expiry := vip_expiry k; poll_checks_user := poll_checks_user k;
+     totp_monotone := totp_monotone k; chal_expiry := chal_expiry k; chal_delete_wa := chal_delete_wa k;
+     upgrade_checks_owner := upgrade_checks_owner k; okta_on := okta_on k; okta_life := okta_life k;
+     from_cache := true; totp_mem_guard := totp_mem_guard k |}.
 
 Definition init : st :=
   {| issued := []; tokens := []; vip := []; txs := []; approved := [];
      chal := fun _ => None; last_totp := fun _ => 0%Z; boot := fun _ => None;
-     proved := []; spent := []; now := 0%Z; fresh := 0 |}.
+     proved := []; spent := []; now := 0%Z; fresh := 0; minted := []; okta := fun _ => None; opush := fun _ => 0%N; acks := 0; saved_totp := fun _ => 0%Z |}.
 
 (* environment's view of presented values *)
 Inductive otpcode := VGood (owner : N) | VBad.                         (* VIP one-time code *)
@@ -135,7 +166,13 @@ Inductive op :=
 | ShowTok (cs : list nat) (life : Z)
 | SendDoc (cs : list nat) (tk : nat)
 | Tick (dt : Z)
-| Req (cert : option N) (fault : bool) (o : op).
+| OktaOtp (cs : list nat) (code : otpcode)   (* Okta2FAuthHandler: a pass code for the user's Okta TOTP factor *)
+| OktaPushStart (cs : list nat)              (* oktaPushStartHandler *)
+| OktaApprove (u : N)                        (* the owner of u's phone approves the Okta push (environment) *)
+| OktaPoll (cs : list nat)                   (* oktaPollCheckHandler *)
+| Req (cert : option N) (fault : bool) (o : op)
+| Cached (o : op).       (* the request of o made while the primary database does not answer in time: every
+                            LoadUserProfile of the request is served from the cache copy (fromCache = true) *)
 
 (* ---- checkAuth ---- *)
 (* the auth_cookie values of a request, in order; an index that names nothing issued stands for
@@ -172,19 +209,35 @@ Definition auth (k : config) (s : st) (cert : option N) (cs : list nat) (mask : 
 
 Definition set_issued (s : st) (l : list cookie) : st :=
   {| issued := l; tokens := tokens s; vip := vip s; txs := txs s; approved := approved s; chal := chal s;
-     last_totp := last_totp s; boot := boot s; proved := proved s; spent := spent s; now := now s; fresh := fresh s |}.
+     last_totp := last_totp s; boot := boot s; proved := proved s; spent := spent s; now := now s; fresh := fresh s; minted := minted s; okta := okta s; opush := opush s; acks := acks s; saved_totp := saved_totp s |}.
 Definition set_ghost (s : st) (p : list (N * N * Z)) (sp : list onetime) : st :=
   {| issued := issued s; tokens := tokens s; vip := vip s; txs := txs s; approved := approved s; chal := chal s;
-     last_totp := last_totp s; boot := boot s; proved := p; spent := sp; now := now s; fresh := fresh s |}.
+     last_totp := last_totp s; boot := boot s; proved := p; spent := sp; now := now s; fresh := fresh s; minted := minted s; okta := okta s; opush := opush s; acks := acks s; saved_totp := saved_totp s |}.
 Definition set_chal (s : st) (c : N -> option challenge) (fr : N) : st :=
   {| issued := issued s; tokens := tokens s; vip := vip s; txs := txs s; approved := approved s; chal := c;
-     last_totp := last_totp s; boot := boot s; proved := proved s; spent := spent s; now := now s; fresh := fr |}.
+     last_totp := last_totp s; boot := boot s; proved := proved s; spent := spent s; now := now s; fresh := fr; minted := minted s; okta := okta s; opush := opush s; acks := acks s; saved_totp := saved_totp s |}.
 Definition set_boot (s : st) (b : N -> option boototp) (fr : N) : st :=
   {| issued := issued s; tokens := tokens s; vip := vip s; txs := txs s; approved := approved s; chal := chal s;
-     last_totp := last_totp s; boot := b; proved := proved s; spent := spent s; now := now s; fresh := fr |}.
-Definition set_totp (s : st) (l : N -> Z) : st :=
+     last_totp := last_totp s; boot := b; proved := proved s; spent := spent s; now := now s; fresh := fr; minted := minted s; okta := okta s; opush := opush s; acks := acks s; saved_totp := saved_totp s |}.
+Definition set_totp (s : st) (l : N -> Z) (sv : N -> Z) : st :=
   {| issued := issued s; tokens := tokens s; vip := vip s; txs := txs s; approved := approved s; chal := chal s;
-     last_totp := l; boot := boot s; proved := proved s; spent := spent s; now := now s; fresh := fresh s |}.
+     last_totp := l; boot := boot s; proved := proved s; spent := spent s; now := now s; fresh := fresh s; minted := minted s; okta := okta s; opush := opush s; acks := acks s; saved_totp := sv |}.
+
+Definition set_okta (s : st) (ok : N -> option Z) (p : N -> N) (a : N) : st :=
+  {| issued := issued s; tokens := tokens s; vip := vip s; txs := txs s; approved := approved s; chal := chal s;
+     last_totp := last_totp s; boot := boot s; proved := proved s; spent := spent s; now := now s;
+     fresh := fresh s; minted := minted s; okta := ok; opush := p; acks := a; saved_totp := saved_totp s |}.
+
+(* oktaAuth.GetValidUserResponse: the cached answer of the user's last successful password check, unless
+   past its expiry *)
+Definition okta_valid (s : st) (u : N) : bool :=
+  match okta s u with Some e => negb (e <=? now s)%Z | None => false end.
+
+(* a new one-time value: its id is `fresh s`, which is recorded as handed out *)
+Definition mint (s : st) : st :=
+  {| issued := issued s; tokens := tokens s; vip := vip s; txs := txs s; approved := approved s; chal := chal s;
+     last_totp := last_totp s; boot := boot s; proved := proved s; spent := spent s; now := now s;
+     fresh := fresh s + 1; minted := fresh s :: minted s; okta := okta s; opush := opush s; acks := acks s; saved_totp := saved_totp s |}.
 
 (* updateAuthCookieAuthlevel(w, r, username, authlevel): the LAST attached auth_cookie (the one
    checkAuth authenticated) is re-signed with the given level (which REPLACES the cookie's own; sub,
@@ -211,6 +264,9 @@ Definition is_approved (s : st) (tx : N) : bool := existsb (N.eqb tx) (approved 
 
 Definition totp_step (t : Z) : Z := (t / 30)%Z.
 
+(* maxAgeU2FVerifySeconds: the lifetime of a pending hardware-token challenge *)
+Definition chal_life : Z := 30.
+
 (* registrations u2fSignRequest/Response look at: U2F keys and WebAuthn keys alike *)
 Definition has_any_key (d : devices) : bool := has_u2f d || has_wa d.
 
@@ -229,7 +285,9 @@ Definition step_req (cert : option N) (fault : bool) (s : st) (o : op) : st * op
   | Login u ok =>
       if ok then
         let c := {| cuser := u; clevel := add 0 F_PW; ciat := now s; cexp := (now s + cookie_life k)%Z |} in
-        (set_ghost (set_issued s (issued s ++ [c])) ((u, F_PW, now s) :: proved s) (spent s), Some c)
+        let s0 := if okta_on k   (* the authn API answered with a NEW state token, cached until its expiresAt *)
+                  then set_okta s (upd (okta s) u (Some (now s + okta_life k)%Z)) (upd (opush s) u 0%N) (acks s) else s in
+        (set_ghost (set_issued s0 (issued s0 ++ [c])) ((u, F_PW, now s) :: proved s0) (spent s0), Some c)
       else (s, None)
   | Logout cs => (s, None)
   | VipOtp cs code =>
@@ -259,7 +317,7 @@ Definition step_req (cert : option N) (fault : bool) (s : st) (o : op) : st * op
                   vip := {| vc := v; vuser := u; vtx := tx; vexp := (now s + vip_life k)%Z |} :: vip s;
                   txs := (tx, u) :: txs s; approved := approved s; chal := chal s;
                   last_totp := last_totp s; boot := boot s; proved := proved s; spent := spent s;
-                  now := now s; fresh := fresh s + 1 |}, None)
+                  now := now s; fresh := fresh s + 1; minted := fresh s :: minted s; okta := okta s; opush := opush s; acks := acks s; saved_totp := saved_totp s |}, None)
           end
       end
   | Approve tx =>
@@ -267,7 +325,7 @@ Definition step_req (cert : option N) (fault : bool) (s : st) (o : op) : st * op
       | Some u =>
           ({| issued := issued s; tokens := tokens s; vip := vip s; txs := txs s;
               approved := tx :: approved s; chal := chal s; last_totp := last_totp s; boot := boot s;
-              proved := (u, F_VIP, now s) :: proved s; spent := spent s; now := now s; fresh := fresh s |}, None)
+              proved := (u, F_VIP, now s) :: proved s; spent := spent s; now := now s; fresh := fresh s; minted := minted s; okta := okta s; opush := opush s; acks := acks s; saved_totp := saved_totp s |}, None)
       | None => (s, None)
       end
   | Poll cs v =>
@@ -298,9 +356,14 @@ Definition step_req (cert : option N) (fault : bool) (s : st) (o : op) : st * op
               if has_totp (devs k u) && N.eqb owner u && (cur - 1 <=? stp)%Z && (stp <=? cur + 1)%Z then
                 if (if totp_monotone k then (stp <=? last_totp s u)%Z else (last_totp s u =? cur)%Z)
                 then (s, None)
-                else if fault then (s, None)   (* the counter cannot be saved: error, nothing accepted *)
+                else if fault && negb (from_cache k) then (s, None)   (* the counter cannot be saved: error, nothing accepted *)
                 else
-                  let s1 := set_totp s (upd (last_totp s) u (if totp_monotone k then stp else cur)) in
+                  (* the accepted step is persisted — unless the profile came from the cache (never written
+                     back): then it is remembered in memory only (repaired code; before: not at all) *)
+                  let x := if totp_monotone k then stp else cur in
+                  let s1 := if from_cache k
+                            then (if totp_mem_guard k then set_totp s (upd (last_totp s) u x) (saved_totp s) else s)
+                            else set_totp s (upd (last_totp s) u x) (upd (saved_totp s) u x) in
                   let (s2, out) := upgrade k s1 u cs (add l F_TOTP) in
                   (set_ghost s2 ((owner, F_TOTP, now s) :: proved s2) (OtTotp owner stp :: spent s2), out)
               else (s, None)
@@ -311,8 +374,10 @@ Definition step_req (cert : option N) (fault : bool) (s : st) (o : op) : st * op
       | None => (s, None)
       | Some (u, l) =>
           if has_profile (devs k u) && has_any_key (devs k u) then
-            (set_chal s (upd (chal s) u (Some {| chid := fresh s; ch_wa := false; chexp := (now s + 30)%Z |}))
-                      (fresh s + 1), None)
+            (* u2f.NewChallenge: 32 random bytes — a value never handed out before; it REPLACES whatever
+               was pending for the user and lives chal_life seconds from now *)
+            (mint (set_chal s (upd (chal s) u (Some {| chid := fresh s; ch_wa := false; chexp := (now s + chal_life)%Z |}))
+                            (fresh s)), None)
           else (s, None)
       end
   | WaBegin cs =>
@@ -320,8 +385,8 @@ Definition step_req (cert : option N) (fault : bool) (s : st) (o : op) : st * op
       | None => (s, None)
       | Some (u, l) =>
           if has_any_key (devs k u) then
-            (set_chal s (upd (chal s) u (Some {| chid := fresh s; ch_wa := true; chexp := (now s + 30)%Z |}))
-                      (fresh s + 1), None)
+            (mint (set_chal s (upd (chal s) u (Some {| chid := fresh s; ch_wa := true; chexp := (now s + chal_life)%Z |}))
+                            (fresh s)), None)
           else (s, None)
       end
   | U2fFinish cs a =>
@@ -369,19 +434,21 @@ Definition step_req (cert : option N) (fault : bool) (s : st) (o : op) : st * op
       end
   | IssueOtp target dur =>
       let d := devs k target in
-      if has_profile d && negb (has_totp d) && negb (has_u2f d) then
+      if from_cache k then (s, None)   (* "Working in db disconnected mode, try again later" *)
+      else if has_profile d && negb (has_totp d) && negb (has_u2f d) then
         let dur' := if (dur <? 60)%Z then 60%Z else dur in
         if (86400 <? dur')%Z then (s, None)
         else if fault then (s, None)
-        else (set_boot s (upd (boot s) target (Some {| bserial := fresh s; bexp := (now s + dur')%Z |}))
-                       (fresh s + 1), None)
+        else (mint (set_boot s (upd (boot s) target (Some {| bserial := fresh s; bexp := (now s + dur')%Z |}))
+                             (fresh s)), None)
       else (s, None)
   | Bootstrap cs code =>
       match auth k s cert cs any_mask with
       | None => (s, None)
       | Some (u, l) =>
           let d := devs k u in
-          if has_totp d || has_u2f d then (s, None)
+          if from_cache k then (s, None)   (* the OTP has to be cleared: a connection is required *)
+          else if has_totp d || has_u2f d then (s, None)
           else match boot s u with
                | None => (s, None)
                | Some b =>
@@ -407,7 +474,7 @@ Definition step_req (cert : option N) (fault : bool) (s : st) (o : op) : st * op
       | Some (u, l) =>
           ({| issued := issued s; tokens := tokens s ++ [{| towner := u; texp := (now s + life)%Z |}];
               vip := vip s; txs := txs s; approved := approved s; chal := chal s; last_totp := last_totp s;
-              boot := boot s; proved := proved s; spent := spent s; now := now s; fresh := fresh s |}, None)
+              boot := boot s; proved := proved s; spent := spent s; now := now s; fresh := fresh s; minted := minted s; okta := okta s; opush := opush s; acks := acks s; saved_totp := saved_totp s |}, None)
       end
   | SendDoc cs tk =>
       match auth k s cert cs (webui k) with
@@ -427,9 +494,67 @@ Definition step_req (cert : option N) (fault : bool) (s : st) (o : op) : st * op
   | Tick dt =>
       ({| issued := issued s; tokens := tokens s; vip := vip s; txs := txs s; approved := approved s;
           chal := chal s; last_totp := last_totp s; boot := boot s; proved := proved s; spent := spent s;
-          now := (now s + Z.max 0 dt)%Z; fresh := fresh s |}, None)
-  | Req _ _ _ => (s, None)      (* wrappers do not nest *)
+          now := (now s + Z.max 0 dt)%Z; fresh := fresh s; minted := minted s; okta := okta s; opush := opush s; acks := acks s; saved_totp := saved_totp s |}, None)
+  | OktaOtp cs code =>
+      match auth k s cert cs any_mask with
+      | None => (s, None)
+      | Some (u, l) =>
+          if negb (okta_on k) then (s, None)           (* "password authenticator is not okta" *)
+          else if negb (okta_valid s u) then (s, None)  (* no recent password check of this user: not valid *)
+          else
+            (* ValidateUserOTP(authUser, otp): the pass code is verified against the state token of the
+               authenticated user *)
+            match code with
+            | VGood owner =>
+                if N.eqb owner u then
+                  let (s1, out) := upgrade k s u cs (add l F_OKTA) in
+                  (set_ghost s1 ((owner, F_OKTA, now s) :: proved s1) (spent s1), out)
+                else (s, None)
+            | VBad => (s, None)
+            end
+      end
+  | OktaPushStart cs =>
+      match auth k s cert cs any_mask with
+      | None => (s, None)
+      | Some (u, l) =>
+          if negb (okta_on k) then (s, None)
+          else if negb (okta_valid s u) then (s, None)
+          else
+            (* ValidateUserPush(user): the first verification call for a state token sends the push; 200
+               exactly when the service answers WAITING *)
+            if N.eqb (opush s u) 0 then (set_okta s (okta s) (upd (opush s) u 1%N) (acks s + 1), None)
+            else if N.eqb (opush s u) 1 then (set_okta s (okta s) (opush s) (acks s + 1), None)
+            else if N.eqb (opush s u) 2 then
+              (* the service answers SUCCESS and finishes the transaction; this handler does not upgrade
+                 ("Push already sent"): the approval is lost *)
+              (set_okta s (okta s) (upd (opush s) u 3%N) (acks s), None)
+            else (s, None)
+      end
+  | OktaApprove u =>
+      if N.eqb (opush s u) 1 then
+        let s1 := set_okta s (okta s) (upd (opush s) u 2%N) (acks s) in
+        (set_ghost s1 ((u, F_OKTA, now s) :: proved s1) (spent s1), None)
+      else (s, None)
+  | OktaPoll cs =>
+      match auth k s cert cs any_mask with
+      | None => (s, None)
+      | Some (u, l) =>
+          if negb (okta_on k) then (s, None)
+          else if negb (okta_valid s u) then (s, None)
+          else if N.eqb (opush s u) 0 then
+            (set_okta s (okta s) (upd (opush s) u 1%N) (acks s), None)   (* the call itself sends the push; WAITING: 412 *)
+          else if N.eqb (opush s u) 2 then
+            (* SUCCESS: the service confirms NOW that the authenticated user approved; the state token's
+               transaction is finished *)
+            let s1 := set_okta s (okta s) (upd (opush s) u 3%N) (acks s) in
+            let (s2, out) := upgrade k s1 u cs (add l F_OKTA) in
+            (set_ghost s2 ((u, F_OKTA, now s) :: proved s2) (spent s2), out)
+          else (s, None)
+      end
+  | Req _ _ _ | Cached _ => (s, None)      (* wrappers do not nest *)
   end.
+
+End Step.
 
 (* presenting a verified client certificate proves possession of its key: factor KeymasterX509 for
    its user (ghost) *)
@@ -439,48 +564,65 @@ Definition present_cert (s : st) (cert : option N) : st :=
   | None => s
   end.
 
-Definition step (s : st) (o : op) : st * option cookie :=
+Definition step (k : config) (s : st) (o : op) : st * option cookie :=
   match o with
-  | Req cert fault o' => step_req cert fault (present_cert s cert) o'
-  | _ => step_req None false s o
+  | Req cert fault o' => step_req k cert fault (present_cert s cert) o'
+  | Cached o' => step_req (with_cache k) None false s o'
+  | _ => step_req k None false s o
   end.
 
-Fixpoint run (s : st) (ops : list op) : st * list (option cookie) :=
+Fixpoint run (k : config) (s : st) (ops : list op) : st * list (option cookie) :=
   match ops with
   | [] => (s, [])
-  | o :: r => let (s1, out) := step s o in
-              let (s2, outs) := run s1 r in (s2, out :: outs)
+  | o :: r => let (s1, out) := step k s o in
+              let (s2, outs) := run k s1 r in (s2, out :: outs)
   end.
 
-End Step.
-
-(* the code as repaired *)
-Definition fixed (d : N -> devices) (w : N) : config :=
+(* the code as repaired; `ok`: the password backend is the Okta authenticator, whose cached answers
+   live `life` seconds *)
+Definition fixed_with (d : N -> devices) (w : N) (ok : bool) (life : Z) : config :=
   {| devs := d; webui := w; cookie_life := 57600; sel_last := true; upg_last := true;
      vip_life := 120; vip_expiry := true; poll_checks_user := true; totp_monotone := true;
-     chal_expiry := true; chal_delete_wa := true; upgrade_checks_owner := true |}.
+     chal_expiry := true; chal_delete_wa := true; upgrade_checks_owner := true;
+     okta_on := ok; okta_life := life; from_cache := false; totp_mem_guard := true |}.
+Definition fixed (d : N -> devices) (w : N) : config := fixed_with d w false 300.
+Definition fixed_okta (d : N -> devices) (w : N) (life : Z) : config := fixed_with d w true life.
 
-(* ---- correspondence: per step, did the handler answer with success, and the (user, level) of
-        the cookie the server emitted.  Success of an operation that emits no cookie shows in the
-        state: a new transaction / challenge / OTP (fresh) or a new token. ---- *)
+(* ---- correspondence: per step, did the handler answer with success, the claims of the cookie the
+        server emitted, and the identity of the one-time value it handed out (a challenge, a bootstrap
+        OTP, a push transaction).  One-time values are identified by CONTENT: the harness numbers the
+        distinct byte strings it has ever been handed in order of first appearance, so a handler that
+        hands out bytes seen before reports the OLD number, while the model's begin operations always
+        mint `fresh s` (Proofs: never handed out before).  Success of an operation that emits no cookie
+        shows in the state: a new value (fresh) or a new token. ---- *)
 Definition changed (s s' : st) : bool :=
-  negb (N.eqb (fresh s) (fresh s')) || negb (Nat.eqb (length (tokens s)) (length (tokens s'))).
+  negb (N.eqb (fresh s) (fresh s')) || negb (Nat.eqb (length (tokens s)) (length (tokens s'))) ||
+  negb (N.eqb (acks s) (acks s')).
 
-Definition step_obs (k : config) (s : st) (o : op) : st * (bool * option cookie) :=
+(* the id of the one-time value the step handed out *)
+Definition handed (s s' : st) : option N :=
+  match minted s' with
+  | i :: _ => if Nat.eqb (length (minted s')) (length (minted s)) then None else Some i
+  | [] => None
+  end.
+
+Definition obs := (bool * option cookie * option N)%type.
+
+Definition step_obs (k : config) (s : st) (o : op) : st * obs :=
   let (s', out) := step k s o in
-  let ok := match (match o with Req _ _ o' => o' | _ => o end) with
-            | Logout _ | Approve _ | Tick _ => true
+  let ok := match (match o with Req _ _ o' | Cached o' => o' | _ => o end) with
+            | Logout _ | Approve _ | Tick _ | OktaApprove _ => true
             | _ => (match out with Some _ => true | None => false end) || changed s s'
             end in
-  (s', (ok, out)).
+  (s', (ok, out, handed s s')).
 
-Fixpoint run_obs (k : config) (s : st) (ops : list op) : list (bool * option cookie) :=
+Fixpoint run_obs (k : config) (s : st) (ops : list op) : list obs :=
   match ops with
   | [] => []
   | o :: r => let (s1, ob) := step_obs k s o in ob :: run_obs k s1 r
   end.
 
-(* ---- per-step (user, level) of the cookie the server emitted ---- *)
+(* ---- per-step claims of the cookie the server emitted ---- *)
 Definition out_eqb (m : option cookie) (o : option (N * N * Z * Z)) : bool :=
   match m, o with
   | None, None => true
@@ -488,16 +630,17 @@ Definition out_eqb (m : option cookie) (o : option (N * N * Z * Z)) : bool :=
   | _, _ => false
   end.
 
-Fixpoint outs_agree (ms : list (option cookie)) (os : list (option (N * N * Z * Z))) (i : nat) : list nat :=
-  match ms, os with
-  | m :: mr, o :: or => (if out_eqb m o then [] else [i]) ++ outs_agree mr or (S i)
-  | [], [] => []
-  | _, _ => [i]
-  end.
+Definition id_eqb (a b : option N) : bool :=
+  match a, b with Some x, Some y => N.eqb x y | None, None => true | _, _ => false end.
 
-Fixpoint obs_agree (ms : list (bool * option cookie)) (os : list (bool * option (N * N * Z * Z))) (i : nat) : list nat :=
+Definition observed := (bool * option (N * N * Z * Z) * option N)%type.
+
+Definition ob_eqb (m : obs) (o : observed) : bool :=
+  let '(mok, mc, mi) := m in let '(ok, c, i) := o in Bool.eqb mok ok && out_eqb mc c && id_eqb mi i.
+
+Fixpoint obs_agree (ms : list obs) (os : list observed) (i : nat) : list nat :=
   match ms, os with
-  | (mok, m) :: mr, (ok, o) :: or => (if Bool.eqb mok ok && out_eqb m o then [] else [i]) ++ obs_agree mr or (S i)
+  | m :: mr, o :: or => (if ob_eqb m o then [] else [i]) ++ obs_agree mr or (S i)
   | [], [] => []
   | _, _ => [i]
   end.
